@@ -174,6 +174,14 @@ func newSandbox(backend string, t *treeSpec, hook *cancelHook) (*sandbox, error)
 	if err := afero.WriteFile(x.raw, x.Z, t.zipData, 0o644); err != nil {
 		return nil, err
 	}
+	if backend == "os" {
+		// symbolic links next to the tree (arguments of the removal entry points: a link is itself something to remove)
+		for name, target := range map[string]string{"lnk-dir": x.S, "lnk-file": x.big, "lnk-dangling": filepath.Join(x.root, "nothing-here")} {
+			if err := os.Symlink(target, filepath.Join(x.root, name)); err != nil {
+				return nil, err
+			}
+		}
+	}
 	return x, nil
 }
 
@@ -256,6 +264,7 @@ type scenario struct {
 	B, M        int
 	RenameFails bool
 	Concurrent  bool
+	OSOnly      bool // needs symbolic links
 }
 
 // Numbers of backend operations of the building blocks (read off files.go; the extended file's Close is called
@@ -313,6 +322,11 @@ func scenarios() []scenario {
 		{Name: "RemoveWithContext", Args: func(x *sandbox) []any { return []any{x.S} }, B: bRemove, M: mFew},
 		{Name: "RemoveWithContextAndExclusionPatterns", Args: func(x *sandbox) []any { return []any{x.S} }, B: bRemove, M: mFew},
 		{Name: "RemoveWithPrivileges", Args: func(x *sandbox) []any { return []any{x.S} }, B: bRemove, M: mFew},
+		// the argument itself is a symbolic link (added after a seeded change made the link branch ignore a context that is already done)
+		{Name: "RemoveWithContext/link-to-directory", Method: "RemoveWithContext", OSOnly: true, Args: func(x *sandbox) []any { return []any{filepath.Join(x.root, "lnk-dir")} }, B: bRemove, M: mFew},
+		{Name: "RemoveWithContext/link-to-file", Method: "RemoveWithContext", OSOnly: true, Args: func(x *sandbox) []any { return []any{filepath.Join(x.root, "lnk-file")} }, B: bRemove, M: mFew},
+		{Name: "RemoveWithContext/dangling-link", Method: "RemoveWithContext", OSOnly: true, Args: func(x *sandbox) []any { return []any{filepath.Join(x.root, "lnk-dangling")} }, B: bRemove, M: mFew},
+		{Name: "RemoveWithContextAndExclusionPatterns/link-to-directory", Method: "RemoveWithContextAndExclusionPatterns", OSOnly: true, Args: func(x *sandbox) []any { return []any{filepath.Join(x.root, "lnk-dir")} }, B: bRemove, M: mFew},
 		{Name: "WalkWithContext", Args: func(x *sandbox) []any { return []any{x.S, noop} }, B: bWalk, M: mFew},
 		{Name: "WalkWithContextAndExclusionPatterns", Args: func(x *sandbox) []any { return []any{x.S, noop} }, B: bWalk, M: mFew},
 		{Name: "LsRecursive", Args: func(x *sandbox) []any { return []any{x.S, true} }, B: bWalk, M: mFew},
